@@ -459,7 +459,11 @@ def execute(ctx, scn: dict) -> dict:
             with open(p, 'wb') as f:
                 f.write(text.replace('{D}', D).encode('ascii'))
             os.utime(p, ns=(OLD_NS, OLD_NS))
-        obs['dirs0'] = [D, top] + [os.path.join(b, x) for b, ds, _ in os.walk(D) for x in ds]
+        anc, a = [], top
+        while a != '/':
+            a = os.path.dirname(a)
+            anc.append(a)
+        obs['dirs0'] = [D, top] + anc + [os.path.join(b, x) for b, ds, _ in os.walk(D) for x in ds]
         before = snapshot(D)
         obs['reach'] = reachable(scn, D)          # independent oracle, evaluated while the tree exists
         cwd_abs = os.path.normpath(os.path.join(D, scn['cwd']))
@@ -769,6 +773,20 @@ def res_code(obs) -> int:
     return 9
 
 
+def hyps_of(scn, obs) -> list[bool]:
+    """The hypotheses of the theorems on this scenario: [alias_free, kept keys distinct, read keys distinct].
+    check_case (EditorRun.hyps) recomputes them on the model and demands the same values."""
+    def distinct(ks):
+        c = [cabs(obs['cwd'], k) for k in ks]
+        return len(set(c)) == len(c)
+    rec = scn['mode'] == 'rec'
+    keys = obs['keys'] or []
+    done = rec and obs['exc'] is None and obs['body_out'] is not None
+    final = [k for k, _ in obs['body_out'] or []]
+    removed = [k for k in keys if k not in final]
+    return [done and distinct(removed + final), done and distinct(final), (not rec) or distinct(keys)]
+
+
 def coq_case(cfg, scn, obs) -> str:
     S, L = common.coq_str, common.coq_list
     D, cwd = obs['D'], obs['cwd']
@@ -815,7 +833,7 @@ def coq_case(cfg, scn, obs) -> str:
     return ('(mkcase ' + ' '.join([
         common.coq_bool(cfg[0]), common.coq_bool(cfg[1]), common.coq_bool(cfg[2]), S(cwd), files0, L(S(d) for d in obs['dirs0']),
         L(incl), L(unp), L(globs), '1' if scn['mode'] == 'rec' else '0', S(obs['root']), body,
-        str(res_code(obs)), keys, L(trace), final, L(pl)]) + ')')
+        str(res_code(obs)), keys, L(trace), final, L(pl), L(common.coq_bool(b) for b in hyps_of(scn, obs))]) + ')')
 
 
 # ------------------------------------------------------------------------------------------------
@@ -851,18 +869,14 @@ def run_scenarios(ctx, cfg, scns: list[dict]):
             continue
         cases.append(coq_case(cfg, scn, obs))
         kept.append(scn)
-        kept_obs.append({'stage': obs['stage']})
+        kept_obs.append({'stage': obs['stage'], 'hyps': hyps_of(scn, obs)})
     bad = ctx.run_coq_cases('editor', PREAMBLE, 'ecase', 'check_case', cases, chunk=25)
     ctx.count('traces_validated_against_impl', len(cases) - len(bad))
-    # the hypotheses of the theorems, evaluated on every scenario (boolean twins in EditorRun.v; print_parse in Python)
-    done = [i for i, c in enumerate(cases) if kept[i]['mode'] == 'rec' and kept_obs[i]['stage'] == 'done']
-    sub = [cases[i] for i in done]
-    for name, fn in (('alias_free', 'hyp_alias_free'), ('kept_keys_distinct', 'hyp_kept_distinct'),
-                     ('read_keys_distinct', 'hyp_read_keys_distinct')):
-        no = ctx.run_coq_cases('hyp_' + name, PREAMBLE, 'ecase', fn, sub, chunk=40)
-        ctx.count(f'hyp_{name}_holds', len(sub) - len(no))
-        ctx.count(f'hyp_{name}_fails', len(no))
-    ctx.count('completed_recursive_blocks', len(sub))
+    for i in range(len(cases)):
+        if i not in bad and kept[i]['mode'] == 'rec' and kept_obs[i]['stage'] == 'done':
+            ctx.count('completed_recursive_blocks')
+            for name, v in zip(('alias_free', 'kept_keys_distinct', 'read_keys_distinct'), kept_obs[i]['hyps']):
+                ctx.count(f'hyp_{name}_' + ('holds' if v else 'fails'))
     for k in HYP:
         ctx.count('hyp_' + k, HYP[k])
         HYP[k] = 0
@@ -944,8 +958,8 @@ def run(ctx: common.Ctx):
         'text the real parser accepts (counters hyp_print_parse_*); alias_free (C16_completed_calls_exactly and '
         'corollaries), NoDup (map canon (keys files\')) (C16_rekeyed_entry_survives) and, for reading "exactly once" '
         'per file rather than per spelling, NoDup (map canon (keys read)) - boolean twins hyp_alias_free / '
-        'hyp_kept_distinct / hyp_read_keys_distinct in EditorRun.v evaluated by vm_compute on every completed recursive '
-        'block (counters hyp_*_holds / _fails; a false hypothesis means the theorem does not speak about that scenario, '
+        'hyp_kept_distinct / hyp_read_keys_distinct in EditorRun.v evaluated by vm_compute inside check_case on every '
+        'scenario and required to equal the values the harness computes from the observed keys (counters hyp_*_holds / _fails; a false hypothesis means the theorem does not speak about that scenario, '
         'the correspondence and the monitors still do); canon equality + traversable (C16_edit_file_any_spelling)',
         'per-theorem hypotheses: "distinct keys denote distinct files" (alias_free = NoDup (map canon (removed ++ kept '
         'keys))) is needed for unchanged_not_written / removed_unlinked / nothing_else_touched, i.e. no symlinks or '
